@@ -10,6 +10,7 @@ import (
 	"regexp"
 	"sort"
 	"strings"
+	"syscall"
 	"time"
 
 	"qedverif/lib"
@@ -163,9 +164,23 @@ func runRaceDiag(c *lib.Ctx, prop, name string, rounds int) {
 		select {
 		case werr = <-done:
 		case <-time.After(8 * time.Minute):
-			cmd.Process.Kill()
-			c.Inconclusive("race worker watchdog fired")
+			// ask the Go runtime for all goroutine stacks before killing: goroutines of the code under test
+			// parked on a mutex for minutes are a deadlock, not slowness
+			cmd.Process.Signal(syscall.SIGQUIT)
+			select {
+			case <-done:
+			case <-time.After(20 * time.Second):
+				cmd.Process.Kill()
+				<-done
+			}
 			out.Close()
+			dump, _ := ioutil.ReadFile(filepath.Join(dir, "worker.out"))
+			if frames := parkedOnLocks(string(dump), 3); len(frames) >= 2 {
+				key := fmt.Sprintf("%s:deadlock:%s <-> %s", prop, frames[0], frames[1])
+				c.Violation(key, fmt.Sprintf("the concurrent public-API workload stopped making progress: %d goroutines of the code under test have been parked on mutexes for at least 3 minutes (%s)", len(frames), strings.Join(frames, "; ")), map[string]interface{}{"id": name, "goroutine_dump_tail": tailStr(string(dump), 6000)})
+			} else {
+				c.Inconclusive("race worker watchdog fired")
+			}
 			continue
 		}
 		out.Close()
@@ -237,4 +252,51 @@ func runRaceDiagInfo(c *lib.Ctx, name string) {
 		keys = append(keys, fmt.Sprintf("%s x%d", rep.Key, rep.Count))
 	}
 	c.Extra("race_diagnostic_reports", keys)
+}
+
+// parkedOnLocks reads a Go goroutine dump and returns, for every goroutine that has been waiting on a
+// sync.Mutex / sync.RWMutex for at least minMinutes and has a frame of the code under test, the innermost such
+// frame (distinct, sorted). The runtime only annotates waits of a minute or more.
+func parkedOnLocks(dump string, minMinutes int) []string {
+	set := map[string]bool{}
+	for _, blk := range strings.Split(dump, "\n\n") {
+		lines := strings.Split(strings.TrimSpace(blk), "\n")
+		if len(lines) < 2 || !strings.HasPrefix(lines[0], "goroutine ") {
+			continue
+		}
+		h := lines[0]
+		if !(strings.Contains(h, "sync.Mutex.Lock") || strings.Contains(h, "sync.RWMutex.RLock") || strings.Contains(h, "sync.RWMutex.Lock") || strings.Contains(h, "semacquire")) {
+			continue
+		}
+		mins := 0
+		if i := strings.Index(h, ", "); i >= 0 {
+			fmt.Sscanf(h[i+2:], "%d minutes", &mins)
+		}
+		if mins < minMinutes {
+			continue
+		}
+		for _, ln := range lines[1:] {
+			if strings.HasPrefix(ln, "github.com/bbva/qed/") {
+				f := strings.TrimPrefix(ln, "github.com/bbva/qed/")
+				if i := strings.LastIndex(f, "("); i > 0 {
+					f = f[:i]
+				}
+				set[f] = true
+				break
+			}
+		}
+	}
+	var out []string
+	for f := range set {
+		out = append(out, f)
+	}
+	sort.Strings(out)
+	return out
+}
+
+func tailStr(s string, n int) string {
+	if len(s) > n {
+		return s[len(s)-n:]
+	}
+	return s
 }
